@@ -230,6 +230,10 @@ def check_C02(ctx):
     # every destination-unreachable code, from the target and from a router on the way (the responder x code matrix of C04All)
     scen += [s for s in vt.tlc_generate(ctx, 'GenWire', 'C04', 0) if '/du_code/' in s['id'] and s['variant'].startswith('udp')]
     wire_family(ctx, 'C02', scen, WIRE_RULE % 'C02All (replies with outer IP options also behind the real capture filters) + the UDP destination-unreachable code matrix of C04All', nontrivial=delivered_something)
+    # what only real sockets show: identifiers the kernel rewrites (echo id 0), answers entering on another interface
+    rule = ctx_rule(ctx)
+    lab_family(ctx, 'C02', 'C02')
+    ctx.extra['rule'] = rule + '; plus KernelPath!C02Lab on a real kernel path'
     vt.write_evidence(ctx, 'model_checking', ctx_rule(ctx), exhaustive=False)
 
 def check_C04(ctx):
@@ -429,8 +433,9 @@ def check_C15(ctx):
                   label='runTracerouteMulti: every failing subset x every completion order; all-or-error, exact counts, termination')
     scen = vt.tlc_generate(ctx, 'GenRun', 'C15', 0)
     if ctx.quick():
-        keep = [s for s in scen if '/cancel/' in s['id'] or '/many/' in s['id'] or '/http/' in s['id']]
-        rest = [s for s in scen if not ('/cancel/' in s['id'] or '/many/' in s['id'] or '/http/' in s['id'])]
+        kept = ('/cancel/', '/many/', '/http/', '/deadline/')
+        keep = [s for s in scen if any(k in s['id'] for k in kept)]
+        rest = [s for s in scen if not any(k in s['id'] for k in kept)]
         scen = keep + rest[ctx.seed % 5::5]
     # the real public-IP fetcher without connectivity, two lookups in a row on one fetcher (real clock, ~20 s): each one comes back
     scen.append({'id': 'C15/pubfetch/2', 'label': 'publicip/real_fetcher/two_failing_lookups', 'kind': 'pubfetch', 'extra': {'calls': 2}})
@@ -882,7 +887,7 @@ def lab_run(ctx, s, prefix, cli_bin, runner_bin):
                 cmd.append('--skip-private-hops')
             cmd.append(req['hostname'])
         else:
-            cmd = ['ip', 'netns', 'exec', tracer, runner_bin, json.dumps(req)]
+            cmd = ['ip', 'netns', 'exec', tracer, runner_bin + ('_v' if req.get('echo_base') else ''), json.dumps(req)]
         noise = None
         if s.get('noise') == 'bigping':
             # unrelated large ICMP: 1400-byte echo requests to the destination (and their replies) while the traceroute runs
@@ -979,6 +984,11 @@ def lab_setup(ctx, gen):
     p = vt.sh(['go', 'build', '-o', runner, '.'], cwd=os.path.join(vt.VERIF, 'lab', 'runner'), env=vt.goenv())
     if p.returncode != 0:
         raise Infra('building the lab runner failed: ' + p.stdout[-1500:])
+    if any((x.get('req') or {}).get('echo_base') for x in scen):
+        # the same driver with the hooks compiled in (real sockets all the same: the constructor seam stays unset), to position an allocator
+        p = vt.sh(['go', 'build', '-tags', 'verif', '-o', runner + '_v', '.'], cwd=os.path.join(vt.VERIF, 'lab', 'runner'), env=vt.goenv())
+        if p.returncode != 0:
+            raise Infra('building the tagged lab runner failed: ' + p.stdout[-1500:])
     if any(x.get('kind') == 'labsrv' for x in scen):
         p = vt.sh(['go', 'build', '-o', os.path.join(ctx.scratch, 'traceroute-server'), './cmd/traceroute-server'], cwd=vt.REPO, env=vt.goenv())
         if p.returncode != 0:
